@@ -5,6 +5,7 @@ as direct oracle (independent of the Lean model).
 Operation vocabulary (JSON lists; h = handle name, p = project index):
   ["open", h, p, sp]            h := projects[p].open_job(sp)
   ["openid", h, p, id_or_prefix]   h := projects[p].open_job(id=...); statepoint loaded at once
+  ["openid", h, p, id_or_prefix, "lazy"]   the same, state point NOT loaded: the next op through h is its first access
   ["init", h]
   ["dset", h, k, v] ["ddel", h, k] ["dclear", h] ["dreset", h, mapping]
   ["put", h, relpath, text]     job.init(); write a file below the job directory
@@ -46,6 +47,24 @@ def plain(x):
 # ----------------------------------------------------------------------------
 # the real thing
 # ----------------------------------------------------------------------------
+def _scribble(m):
+    """mutate a caller-owned state point mapping in place, at every depth"""
+    if isinstance(m, dict):
+        for v in list(m.values()):
+            _scribble(v)
+        for key in list(m):
+            if not isinstance(m[key], (dict, list)):
+                m[key] = "scribbled"
+        m["__scribbled__"] = 1
+    elif isinstance(m, list):
+        for v in m:
+            _scribble(v)
+        for i, v in enumerate(m):
+            if not isinstance(v, (dict, list)):
+                m[i] = "scribbled"
+        m.append("scribbled")
+
+
 class RealWorld:
     def __init__(self, ctx, nproj=2):
         import signac
@@ -61,6 +80,7 @@ class RealWorld:
             self.paths.append(d)
             self.projects.append(signac.init_project(d))
         self.h = {}
+        self.lazy = set()
 
     def close(self):
         self.ctx.cleanup(self.root)
@@ -68,19 +88,40 @@ class RealWorld:
     def apply(self, op):
         """Run one op; returns 'ok' / 'ok:<info>' or the exception kind."""
         try:
+            if op[0] == "remove" and op[1] in self.lazy:
+                # a handle that never loaded its state point cannot know it once the job is gone;
+                # load it before removing so that the handle stays comparable with the reference
+                try:
+                    self.h[op[1]].statepoint()
+                except Exception:  # noqa: BLE001
+                    pass
             return self._apply(op) or "ok"
         except Exception as e:  # noqa: BLE001 - the kind is the observation
             return exc_name(e)
+        finally:
+            if op[0] != "openid":
+                for x in op[1:3]:
+                    if isinstance(x, str):
+                        self.lazy.discard(x)
 
     def _apply(self, op):
         k = op[0]
         H, P = self.h, self.projects
         if k == "open":
-            H[op[1]] = P[op[2]].open_job(op[3])
+            # the caller keeps and later mutates its own mapping (at every depth): a handle must not
+            # alias it, whether or not the state point has been materialised yet
+            mine = copy.deepcopy(op[3])
+            H[op[1]] = P[op[2]].open_job(mine)
+            _scribble(mine)
         elif k == "openid":
             H.pop(op[1], None)
             j = P[op[2]].open_job(id=op[3])
-            j.statepoint()  # force the lazy load now
+            if len(op) > 4 and op[4] == "lazy":
+                # leave the state point unloaded: the next operation through this handle is its FIRST
+                # state point access (handle_views does not look at the state point until then)
+                self.lazy.add(op[1])
+            else:
+                j.statepoint()  # force the lazy load now
             H[op[1]] = j
             return "ok:" + j.id
         elif k == "init":
@@ -170,6 +211,10 @@ class RealWorld:
             try:
                 v["id"] = j.id
                 v["proj"] = self.paths.index(j.project.path) if j.project.path in self.paths else -1
+                if name in self.lazy:
+                    v["lazy"] = True
+                    views[name] = v
+                    continue
                 v["sp"] = plain(j.statepoint())
                 v["cached"] = plain(dict(j.cached_statepoint))
                 v["path_ok"] = os.path.basename(j.path) == j.id and os.path.dirname(j.path) == j.project.workspace
@@ -550,7 +595,7 @@ def gen_ops(rng, length, nproj=2, rich=False, weights=None, allow_plant=False):
             sp = rng.choice(known_sps)
             jid = ref_id(sp)
             n = rng.choice([32, 32, 1, 2, 3, 8])
-            ops.append(["openid", h, rng.randrange(nproj), jid[:n]])
+            ops.append(["openid", h, rng.randrange(nproj), jid[:n]] + (["lazy"] if rng.random() < 0.4 else []))
             handles.append(h)
         elif k == "init":
             ops.append(["init", rng.choice(handles)])
@@ -743,6 +788,7 @@ def lockstep(ops, ctx, nproj=2, check_handles=True, stop_at_first=True):
             if k == "openid" and real.startswith("ok") and model == "KeyError":
                 # documented: the session cache may still know the state point of a removed job
                 j = rw.h[op[1]]
+                rw.lazy.discard(op[1])
                 sp = plain(j.statepoint())
                 if ref_id(sp) == j.id and j.id.startswith(op[3]):
                     pm.h[op[1]] = pm._new(op[2], sp)
@@ -824,6 +870,10 @@ def lockstep(ops, ctx, nproj=2, check_handles=True, stop_at_first=True):
                     if "error" in v:
                         failures.append("step %d %s: handle %s unusable: %s" % (i, json.dumps(op), name, v["error"]))
                         continue
+                    if v.get("lazy"):
+                        if (v["id"], v["proj"]) != (want["id"], want["proj"]):
+                            failures.append("step %d %s: lazy handle %s says %s, reference %s" % (i, json.dumps(op), name, v, want))
+                        continue
                     got = {"id": v["id"], "proj": v["proj"], "sp": tagged(v["sp"])}
                     if got != want:
                         failures.append("step %d %s: handle %s says %s, reference %s" % (i, json.dumps(op), name, got, want))
@@ -836,6 +886,7 @@ def lockstep(ops, ctx, nproj=2, check_handles=True, stop_at_first=True):
             # ---- line for the Lean model and the token the real run must match ----
             cached = None
             if k == "openid" and real.startswith("ok") and m0_before_fix == "KeyError":
+                rw.lazy.discard(op[1])
                 cached = plain(rw.h[op[1]].statepoint())
             names = sorted(n for n in pm.h if n not in stale and n not in tainted and n in rw.h)
             rec["mop"] = model_op(op, cached) + " @" + ",".join(names)
